@@ -193,6 +193,7 @@ type Node struct {
 	// CrashAtEffect: when >=0, the effect with this index (0-based, over the node's whole
 	// log) is not applied and the current incarnation is detached at that instant.
 	CrashAtEffect int
+	Origin        int // index of the node whose identity and directory this node carries
 }
 
 // Inc is one process lifetime of a node. A detached incarnation is a zombie: nothing it
@@ -225,6 +226,7 @@ func (w *World) AddNode() *Node {
 	w.mu.Lock()
 	defer w.mu.Unlock()
 	n := &Node{Idx: len(w.Nodes), Disk: NewDisk(), W: w, CrashAtEffect: -1}
+	n.Origin = n.Idx
 	n.ID = PeerIDFor(n.Idx)
 	w.Nodes = append(w.Nodes, n)
 	return n
@@ -234,7 +236,7 @@ func (w *World) AddNode() *Node {
 func (w *World) AddNodeWithDisk(idx int, d *Disk) *Node {
 	w.mu.Lock()
 	defer w.mu.Unlock()
-	n := &Node{Idx: len(w.Nodes), Disk: d, W: w, CrashAtEffect: -1}
+	n := &Node{Idx: len(w.Nodes), Disk: d, W: w, CrashAtEffect: -1, Origin: idx}
 	n.ID = PeerIDFor(idx)
 	w.Nodes = append(w.Nodes, n)
 	return n
